@@ -87,9 +87,9 @@ pub async fn apply(nexus: &CognitiveNexus, op: &str) -> String {
 // ----------------------------------------------------------------------------------------------
 
 #[derive(Default, Clone)]
-struct RGrant { space: String, gp: String, gg: String, actions: Vec<String>, from: u64, until: u64, revoked: bool, scope: String, may_delegate: bool }
+struct RGrant { space: String, gp: String, gg: String, actions: Vec<String>, from: u64, until: u64, revoked: bool, scope: String, cons: String, may_delegate: bool }
 #[derive(Default, Clone)]
-struct RDeleg { space: String, delegator: String, delegate: String, actions: Vec<String>, from: u64, until: u64, revoked: bool, scope: String, parent: String }
+struct RDeleg { space: String, delegator: String, delegate: String, actions: Vec<String>, from: u64, until: u64, revoked: bool, scope: String, cons: String, parent: String }
 #[derive(Default, Clone)]
 struct RSpace { owner: String, owners: Vec<String>, status: String, policy: String }
 #[derive(Default, Clone)]
@@ -103,6 +103,10 @@ pub struct Ref {
     delegs: Vec<RDeleg>,
     spaces: BTreeMap<String, RSpace>,
     policies: BTreeMap<String, (u64, Vec<RStmt>)>,
+}
+
+fn class_rank(l: &str) -> u32 {
+    match l { "public" => 0, "internal" | "" | "-" => 1, "private" => 2, "sensitive" => 3, "secret" => 4, _ => 255 }
 }
 
 fn kv<'a>(tok: &'a str, key: &str) -> &'a str {
@@ -123,11 +127,11 @@ impl Ref {
             ["principal", id] => { self.principals.entry(id.to_string()).or_insert("active".into()); }
             ["pstatus", id, st] => { if let Some(s) = self.principals.get_mut(*id) { *s = st.to_string(); } }
             ["group", gid, ms] => { self.groups.insert(gid.to_string(), csv(ms)); }
-            ["grant", sp, gp, gg, acts, sc, co, _cs, da] => self.grants.push(RGrant { space: sp.to_string(), gp: str_of(gp), gg: str_of(gg), actions: csv(acts),
-                from: kv(co, "from").parse().unwrap_or(0), until: kv(co, "until").parse().unwrap_or(0), revoked: false, scope: sc.to_string(), may_delegate: *da == "1" }),
+            ["grant", sp, gp, gg, acts, sc, co, cs, da] => self.grants.push(RGrant { space: sp.to_string(), gp: str_of(gp), gg: str_of(gg), actions: csv(acts),
+                from: kv(co, "from").parse().unwrap_or(0), until: kv(co, "until").parse().unwrap_or(0), revoked: false, scope: sc.to_string(), cons: cs.to_string(), may_delegate: *da == "1" }),
             ["revoke_grant", row] => { if let Some(g) = row.parse::<usize>().ok().and_then(|n| self.grants.get_mut(n.wrapping_sub(1))) { g.revoked = true; } }
-            ["deleg", sp, dor, dee, acts, sc, co, _cs, par, _mr] => self.delegs.push(RDeleg { space: sp.to_string(), delegator: dor.to_string(), delegate: dee.to_string(), actions: csv(acts),
-                from: kv(co, "from").parse().unwrap_or(0), until: kv(co, "until").parse().unwrap_or(0), revoked: false, scope: sc.to_string(), parent: str_of(par) }),
+            ["deleg", sp, dor, dee, acts, sc, co, cs, par, _mr] => self.delegs.push(RDeleg { space: sp.to_string(), delegator: dor.to_string(), delegate: dee.to_string(), actions: csv(acts),
+                from: kv(co, "from").parse().unwrap_or(0), until: kv(co, "until").parse().unwrap_or(0), revoked: false, scope: sc.to_string(), cons: cs.to_string(), parent: str_of(par) }),
             ["revoke_deleg", row] => { if let Some(d) = row.parse::<usize>().ok().and_then(|n| self.delegs.get_mut(n.wrapping_sub(1))) { d.revoked = true; } }
             ["policy", pid, _n, rest @ ..] => {
                 let sts = rest.chunks(8).filter(|c| c.len() == 8).map(|c| RStmt {
@@ -141,6 +145,13 @@ impl Ref {
             ["space", id, owner, owners, status, pol, _cls, _audit] => { self.spaces.insert(id.to_string(), RSpace { owner: str_of(owner), owners: csv(owners), status: status.to_string(), policy: str_of(pol) }); }
             _ => {}
         }
+    }
+    /// For the "delegate ⊆ delegator" oracle: the Principal that made Delegation `n` (1-based), unless a deny statement
+    /// is in force in the Space's policy (a deny names Principals, so it may legitimately separate the two).
+    pub fn delegator_to_reask(&self, space: &str, n: usize) -> Option<String> {
+        let sp = self.spaces.get(space)?;
+        if !sp.policy.is_empty() && self.policies.get(&sp.policy).is_some_and(|(_, sts)| sts.iter().any(|s| s.effect == "deny")) { return None; }
+        self.delegs.get(n.wrapping_sub(1)).map(|d| d.delegator.clone())
     }
     fn in_window(from: u64, until: u64) -> bool {
         (from == 0 || from <= MODEL_NOW) && (until == 0 || until > MODEL_NOW)
@@ -203,8 +214,12 @@ impl Ref {
                             let narrows = |parent: &str, child: &str| -> bool { let (p, c) = (csv(parent), csv(child)); p.is_empty() || (!c.is_empty() && c.iter().all(|x| p.contains(x))) };
                             let holds = self.grants.iter().any(|g| !g.revoked && g.space == *sp && g.may_delegate && g.actions.iter().any(|a| a == perm)
                                 && (g.gp == d.delegator || (!g.gg.is_empty() && self.groups.get(&g.gg).is_some_and(|ms| ms.iter().any(|m| *m == d.delegator))))
-                                && ["k", "t", "c", "e"].iter().all(|k| narrows(kv(&g.scope, k), kv(&d.scope, k))));
-                            if !dor_owner && !holds { out.push(("authz:delegation-wider-than-its-delegator".into(), u.clone(), "the delegator neither owns the Space nor holds a delegable Grant that lists the permission and contains the Delegation's scope".into())); }
+                                && ["k", "t", "c", "e"].iter().all(|k| narrows(kv(&g.scope, k), kv(&d.scope, k)))
+                                && narrows(kv(&g.cons, "f"), kv(&d.cons, "f"))
+                                && { let (p, c) = (kv(&g.cons, "mc"), kv(&d.cons, "mc")); p == "-" || (c != "-" && class_rank(c) <= class_rank(p)) }
+                                && { let (p, c) = (kv(&g.cons, "mr"), kv(&d.cons, "mr")); p == "-" || (c != "-" && c.parse::<u64>().unwrap_or(u64::MAX) <= p.parse::<u64>().unwrap_or(0)) }
+                                && (kv(&g.cons, "x") == "1" || kv(&d.cons, "x") == "0"));
+                            if !dor_owner && !holds { out.push(("authz:delegation-wider-than-its-delegator".into(), u.clone(), "the delegator neither owns the Space nor holds ONE delegable Grant that lists the permission and contains the Delegation's scope lists and constraints".into())); }
                         }
                     }
                 }
@@ -301,53 +316,98 @@ fn gen_query(r: &mut Rng, ndeleg: usize, nreg: usize) -> String {
 const DEFAULT_SCOPE: &str = "k=-;t=-;c=-;e=-";
 const DEFAULT_COND: &str = "p=-;pa=-;as=-;from=0;until=0";
 
-/// A history built around attenuation: a delegator holding one or two Grants, Delegations (and re-delegations) whose
-/// bounds are the Grant's own, the default (= unbounded), or something else, and questions by the delegates inside and
-/// outside every bound; then the Grant is revoked and the questions are asked again.
+/// One authority narrowed along exactly one dimension (or not at all): (scope, conditions, constraints).
+fn gen_bounds(r: &mut Rng) -> (String, String, String) {
+    let mut sc = DEFAULT_SCOPE.to_string();
+    let mut co = DEFAULT_COND.to_string();
+    let mut cs = format!("f=-;mr=-;mi=-;mc=-;x={}", r.below(2));
+    match r.below(12) {
+        0 => sc = format!("k={};t=-;c=-;e=-", r.pick(&["evidence", "concept", "concept,proposition"])),
+        1 => sc = format!("k=-;t={};c=-;e=-", r.pick(&["T1", "T2"])),
+        2 => sc = format!("k=-;t=-;c={};e=-", r.pick(&["public", "public,internal", "internal"])),
+        3 => sc = format!("k=-;t=-;c=-;e={}", r.pick(&["C-1", "C-1,C-2", "P-1"])),
+        4 | 5 => cs = format!("f=-;mr=-;mi=-;mc={};x={}", r.pick(&["public", "internal", "private"]), r.below(2)),
+        6 => cs = format!("f={};mr=-;mi=-;mc=-;x={}", r.pick(&["name", "name,attributes"]), r.below(2)),
+        7 => cs = format!("f=-;mr={};mi=-;mc=-;x=0", r.pick(&["1", "5"])),
+        8 => co = format!("p=-;pa=-;as=strong;from=0;until=0"),
+        9 => co = format!("p={};pa={};as=-;from=0;until=0", r.pick(&["research", "ops"]), r.pick(&["-", "session_bound"])),
+        10 => co = format!("p=-;pa=-;as=-;from=0;until={}", r.pick(&[2010u64, 2110])),
+        _ => {}
+    }
+    (sc, co, cs)
+}
+
+/// A history built around attenuation. The delegator holds two or three authorities of DIFFERENT actions and DIFFERENT
+/// bounds (direct Grants, a group Grant, a Delegation made to it); the Delegations it makes pair an action with the bounds
+/// of the authority that holds that action (covered), of another one (covered only by mixing two authorities — must confer
+/// nothing), with no bounds at all (wider) or with unrelated ones; re-delegations hang below them. Delegates and delegator
+/// are asked the same questions over every resource class; then something is revoked / suspended and they are asked again.
 fn gen_delegation_case(r: &mut Rng) -> Vec<String> {
     let mut ops = vec!["mode authz".to_string()];
     for p in &PRINCIPALS[..4] { ops.push(format!("principal {p}")); }
-    let (d, e, f) = (PRINCIPALS[0], PRINCIPALS[1], PRINCIPALS[2]);
-    if r.chance(1, 4) { ops.push(format!("group {} {d}", GROUPS[0])); }
-    let ngr = 1 + r.usize(2);
-    let mut triples = vec![];
-    for _ in 0..ngr {
-        let sc = if r.chance(2, 3) { gen_scope(r) } else { DEFAULT_SCOPE.to_string() };
-        let co = if r.chance(1, 3) { gen_cond(r) } else { DEFAULT_COND.to_string() };
-        let cs = if r.chance(1, 3) { gen_cons(r) } else { format!("f=-;mr=-;mi=-;mc=-;x={}", r.below(2)) };
-        let (gp, gg) = if ops.iter().any(|o| o.starts_with("group")) && r.chance(1, 2) { ("-".to_string(), GROUPS[0].to_string()) } else { (d.to_string(), "-".to_string()) };
-        ops.push(format!("grant {SPACE} {gp} {gg} read,search,export {sc} {co} {cs} {}", r.chance(5, 6) as u8));
-        triples.push((sc, co, cs));
+    let (d, e, f, x) = (PRINCIPALS[0], PRINCIPALS[1], PRINCIPALS[2], PRINCIPALS[3]);
+    let grouped = r.chance(1, 3);
+    if grouped { ops.push(format!("group {} {d}", GROUPS[0])); }
+    let mut pool = vec!["read", "search", "export", "discover"];
+    r.shuffle(&mut pool);
+    let nauth = 2 + r.usize(2);
+    let mut held: Vec<(String, (String, String, String))> = vec![]; // (action, bounds) of the delegator's delegable authorities
+    let mut ngrant = 0;
+    for i in 0..nauth {
+        let action = pool[i % pool.len()];
+        let actions = if r.chance(1, 5) { format!("{action},{}", pool[(i + 1) % pool.len()]) } else { action.to_string() };
+        let bounds = gen_bounds(r);
+        let (gp, gg) = if grouped && r.chance(1, 2) { ("-".to_string(), GROUPS[0].to_string()) } else { (d.to_string(), "-".to_string()) };
+        ops.push(format!("grant {SPACE} {gp} {gg} {actions} {} {} {} {}", bounds.0, bounds.1, bounds.2, r.chance(7, 8) as u8));
+        ngrant += 1;
+        held.push((action.to_string(), bounds));
     }
     let mut ndeleg = 0;
-    let pick = |r: &mut Rng, own: &str, default: &str, other: String| -> String { match r.below(4) { 0 | 1 => own.to_string(), 2 => default.to_string(), _ => other } };
-    for _ in 0..(1 + r.usize(3)) {
-        let (gs, gc, gk) = triples[r.usize(triples.len())].clone();
-        let o1 = gen_scope(r); let sc = pick(r, &gs, DEFAULT_SCOPE, o1);
-        let o2 = gen_cond(r); let co = pick(r, &gc, DEFAULT_COND, o2);
-        let o3 = gen_cons(r); let cs = pick(r, &gk, "f=-;mr=-;mi=-;mc=-;x=0", o3);
-        let (dor, dee, parent) = if ndeleg > 0 && r.chance(1, 3) { (e, f, format!("kip:delegation:{}", 1 + r.usize(ndeleg))) } else { (d, if r.chance(3, 4) { e } else { f }, "-".to_string()) };
-        ops.push(format!("deleg {SPACE} {dor} {dee} {} {sc} {co} {cs} {parent} {}", r.pick(&["read", "read,search", "read,export,purge", "search"]), r.chance(2, 3) as u8));
+    if r.chance(1, 3) {
+        // a Delegation made TO the delegator: a candidate it holds but may not pass on
+        let b = gen_bounds(r);
+        ops.push(format!("grant {SPACE} {x} - purge,read {} {} {} 1", b.0, b.1, b.2));
+        ngrant += 1;
+        ops.push(format!("deleg {SPACE} {x} {d} purge,read {} {} {} - 1", b.0, b.1, b.2));
         ndeleg += 1;
     }
+    let first_own = ndeleg;
+    for _ in 0..(2 + r.usize(3)) {
+        let i = r.usize(held.len());
+        let (action, own) = held[i].clone();
+        let other = held[(i + 1 + r.usize(held.len() - 1)) % held.len()].1.clone();
+        let (sc, co, cs) = match r.below(8) {
+            0 | 1 => own.clone(),                                                          // covered by the authority holding the action
+            2 | 3 | 4 => other.clone(),                                                    // bounds of ANOTHER authority: only a mix covers it
+            5 => (DEFAULT_SCOPE.to_string(), DEFAULT_COND.to_string(), "f=-;mr=-;mi=-;mc=-;x=0".to_string()), // wider than anything narrowed
+            6 => (own.0.clone(), other.1.clone(), other.2.clone()),                        // scope from one, the rest from the other
+            _ => gen_bounds(r),
+        };
+        let (dor, dee, parent) = if ndeleg > first_own && r.chance(1, 4) { (e, f, format!("kip:delegation:{}", first_own + 1 + r.usize(ndeleg - first_own))) }
+            else { (d, if r.chance(3, 4) { e } else { f }, "-".to_string()) };
+        let acts = if r.chance(1, 4) { format!("{action},{}", held[(i + 1) % held.len()].0) } else { action };
+        ops.push(format!("deleg {SPACE} {dor} {dee} {acts} {sc} {co} {cs} {parent} {}", r.chance(2, 3) as u8));
+        ndeleg += 1;
+    }
+    let actions: Vec<String> = held.iter().map(|h| h.0.clone()).collect();
     let ask = |r: &mut Rng, ops: &mut Vec<String>| {
-        for _ in 0..10 {
-            let who = *r.pick(&[e, e, f, d]);
-            let (k, t, c, el) = if r.chance(1, 5) { ("-", "-", "-", "-") } else {
-                (*r.pick(&["concept", "proposition", "evidence"]), *r.pick(&["T1", "T2", "-"]), *r.pick(&["-", "public", "internal", "secret", "weird"]), *r.pick(&["-", "C-1", "C-2", "P-1"])) };
-            let chain = if r.chance(1, 6) { format!("kip:delegation:{}", 1 + r.usize(ndeleg)) } else { "-".to_string() };
-            ops.push(format!("auth {SPACE} {who} {} {} {} {chain} {} {k} {t} {c} {el}", r.pick(&["standard", "strong"]), r.pick(&["-", "research", "ops"]),
-                r.pick(&["declared", "session_bound", "approved"]), r.pick(&["read", "read", "search", "export"])));
+        for _ in 0..12 {
+            let who = *r.pick(&[e, e, e, f, f, d]);
+            let (k, t, c, el) = if r.chance(1, 8) { ("-", "-", "-", "-") } else {
+                (*r.pick(&["concept", "proposition", "evidence"]), *r.pick(&["T1", "T2", "-"]), *r.pick(&["-", "public", "internal", "private", "secret"]), *r.pick(&["-", "C-1", "C-2", "P-1"])) };
+            let chain = if r.chance(1, 8) { format!("kip:delegation:{}", 1 + r.usize(ndeleg)) } else { "-".to_string() };
+            ops.push(format!("auth {SPACE} {who} {} {} {} {chain} {} {k} {t} {c} {el}", r.pick(&["standard", "strong", "strong"]), r.pick(&["-", "research", "ops"]),
+                r.pick(&["declared", "session_bound", "approved"]), r.pick(&actions)));
         }
     };
     ask(r, &mut ops);
-    match r.below(3) { 0 => ops.push("revoke_grant 1".into()), 1 => ops.push(format!("pstatus {d} suspended")), _ => ops.push("revoke_deleg 1".into()) }
+    match r.below(4) { 0 => ops.push(format!("revoke_grant {}", 1 + r.usize(ngrant))), 1 => ops.push(format!("pstatus {d} suspended")), 2 => ops.push(format!("revoke_deleg {}", 1 + r.usize(ndeleg))), _ => ops.push(format!("pstatus {e} suspended")) }
     ask(r, &mut ops);
     ops
 }
 
 pub fn gen_case(r: &mut Rng) -> Vec<String> {
-    if r.chance(1, 4) { return gen_delegation_case(r); }
+    if r.chance(1, 3) { return gen_delegation_case(r); }
     let mut ops = vec!["mode authz".to_string()];
     let nreg = 3 + r.usize(2);
     for p in &PRINCIPALS[..nreg] { ops.push(format!("principal {p}")); }
